@@ -107,7 +107,7 @@ type Entry struct {
 	Added   int    // 0 for binary
 	Deleted int
 	Binary  bool
-	Score   int // rename similarity percent as printed
+	Score   int  // rename similarity percent as printed
 	Exec    bool // the created / deleted file is executable
 }
 
